@@ -285,6 +285,9 @@ struct MetaSpec {
     local: HashMap<String, Vec<SlotRange>>,
     peer: HashMap<String, Vec<SlotRange>>,
     compressed: bool,
+    /// epoch of the view when it comes from the broker (the installed epoch must not be below the epochs
+    /// inside the migration metas, else the switch handlers answer NOT_READY)
+    min_epoch: u64,
 }
 
 fn sorted_map(m: &HashMap<String, Vec<SlotRange>>) -> Vec<(String, Vec<SlotRange>)> {
@@ -323,6 +326,8 @@ fn build_args(spec: &MetaSpec, epoch: u64) -> Result<(Vec<String>, Installed), S
 struct Entry {
     /// address under which the entry is advertised: announce address for local nodes, proxy address for peers
     adv: String,
+    /// local entries: the node address
+    node: String,
     local: bool,
     kind: char,
     ranges: Ranges,
@@ -331,14 +336,14 @@ struct Entry {
 
 fn entries(me: &str, im: &Installed) -> Vec<Entry> {
     let mut v = vec![];
-    for (_, srs) in &im.local {
+    for (node, srs) in &im.local {
         for sr in srs {
-            v.push(Entry { adv: me.to_string(), local: true, kind: kind_of(sr), ranges: ranges_of(sr), sr: sr.clone() });
+            v.push(Entry { adv: me.to_string(), node: node.clone(), local: true, kind: kind_of(sr), ranges: ranges_of(sr), sr: sr.clone() });
         }
     }
     for (a, srs) in &im.peer {
         for sr in srs {
-            v.push(Entry { adv: a.clone(), local: false, kind: kind_of(sr), ranges: ranges_of(sr), sr: sr.clone() });
+            v.push(Entry { adv: a.clone(), node: String::new(), local: false, kind: kind_of(sr), ranges: ranges_of(sr), sr: sr.clone() });
         }
     }
     v
@@ -682,7 +687,7 @@ impl Run {
     }
 
     async fn do_install(&mut self, spec: &MetaSpec) -> bool {
-        self.w.epoch += 1;
+        self.w.epoch = (self.w.epoch + 1).max(spec.min_epoch);
         let epoch = self.w.epoch;
         let (args, im) = match build_args(spec, epoch) {
             Ok(x) => x,
@@ -991,8 +996,22 @@ impl Run {
     }
 
     async fn do_probes(&mut self, slots: &[usize]) {
+        // a source node whose task is in PreBlocking / PreSwitch queues every client command (by design:
+        // `BlockingHint::Blocking`) until the switch or `max_blocking_time`; probing it would stall the
+        // handshake the harness is steering
+        let blocked_nodes: Vec<String> = self
+            .w
+            .es
+            .iter()
+            .filter(|e| e.local && e.kind == 'M' && matches!(self.state_of(&e.ranges).as_deref(), Some("PreBlocking") | Some("PreSwitch")))
+            .map(|e| e.node.clone())
+            .collect();
         for &slot in slots {
             if slot >= SLOT_NUM {
+                continue;
+            }
+            if self.listers(slot, true).iter().any(|e| blocked_nodes.contains(&e.node)) {
+                self.s.stats.count("probe.skipped_blocking_node");
                 continue;
             }
             let loc = self.listers(slot, true);
@@ -1156,11 +1175,16 @@ impl Gen {
         if raw {
             stats.count("gen.meta.raw_range_lists");
         }
-        let mk_rl = |rs: &Ranges, rng: &mut Rng| -> RangeList {
+        // `tagged`: a migrating / importing range list. RangeMap::from (built for every local task) computes
+        // `last.end - first.start + 1` and panics with "capacity overflow" on a descending list, which only
+        // the compressed form can carry (observation reported in notes/C14.md); descending order is
+        // therefore generated for stable ranges only.
+        let mk_rl = |rs: &Ranges, rng: &mut Rng, tagged: bool| -> RangeList {
             if raw {
                 let mut v = rs.clone();
-                // uncompacted: reversed order, reversed bounds are *not* used (they would not cover the slots)
-                if rng.chance(1, 2) {
+                // uncompacted: adjacent ranges not merged, possibly descending; reversed bounds are *not*
+                // used (they would not cover the slots)
+                if !tagged && rng.chance(1, 2) {
                     v.reverse();
                 }
                 raw_range_list(&v)
@@ -1182,7 +1206,7 @@ impl Gen {
             let mut o = rng.pick(&owners).clone();
             let migrating = owners.len() > 1 && (rng.chance(2, 5) || (gi == 0 && force_role < 3));
             if !migrating {
-                let rl = mk_rl(g, rng);
+                let rl = mk_rl(g, rng, false);
                 put(&o, SlotRange { range_list: rl, tag: SlotRangeTag::None }, &mut local, &mut peer);
                 continue;
             }
@@ -1205,13 +1229,13 @@ impl Gen {
                 guard += 1;
             }
             if d.proxy == o.proxy {
-                let rl = mk_rl(g, rng);
+                let rl = mk_rl(g, rng, false);
                 put(&o, SlotRange { range_list: rl, tag: SlotRangeTag::None }, &mut local, &mut peer);
                 continue;
             }
             roles.insert(if o.proxy == 0 { "source" } else if d.proxy == 0 { "destination" } else { "bystander" });
             let meta = mk_meta(1, &proxy_addr(o.proxy), &node_addr(o.proxy, o.node), &proxy_addr(d.proxy), &node_addr(d.proxy, d.node));
-            let rl = mk_rl(g, rng);
+            let rl = mk_rl(g, rng, true);
             put(&o, SlotRange { range_list: rl.clone(), tag: SlotRangeTag::Migrating(meta.clone()) }, &mut local, &mut peer);
             put(&d, SlotRange { range_list: rl, tag: SlotRangeTag::Importing(meta) }, &mut local, &mut peer);
         }
@@ -1228,7 +1252,7 @@ impl Gen {
         let compressed = raw || rng.chance(1, 3);
         stats.count(if compressed { "gen.meta.compressed" } else { "gen.meta.textual" });
         stats.count(&format!("gen.meta.proxies.{}", n_proxies.min(6)));
-        MetaSpec { name, local, peer, compressed }
+        MetaSpec { name, local, peer, compressed, min_epoch: 0 }
     }
 
     /// perturb a partition meta so that the partition property (usually) no longer holds
@@ -1407,6 +1431,7 @@ impl Gen {
         let me = rng.pick(&addrs).clone();
         let limit = *rng.pick(&[1u64, 2, 100, 100]);
         let p: Proxy = st.get_proxy_by_address(&me, limit)?;
+        let p_epoch = p.get_epoch();
         // what the coordinator sends (generate_proxy_meta_cmd_args)
         let mut peer: HashMap<String, Vec<SlotRange>> = HashMap::new();
         for pp in p.get_peers().iter() {
@@ -1420,7 +1445,7 @@ impl Gen {
         stats.count(if migrating { "gen.broker.view_migrating" } else { "gen.broker.view_stable" });
         stats.count(&format!("gen.broker.hist.{}", hist.join("+")));
         let compressed = rng.chance(1, 2);
-        Some((me, MetaSpec { name, local, peer, compressed }))
+        Some((me, MetaSpec { name, local, peer, compressed, min_epoch: p_epoch }))
     }
 }
 
@@ -1717,5 +1742,5 @@ fn replay_spec(me: &str, name: &str, local: &str, peer: &str) -> Option<MetaSpec
         }
         out
     };
-    Some(MetaSpec { name: if name == "-" { String::new() } else { name.to_string() }, local: build(&lo), peer: build(&pe), compressed: true })
+    Some(MetaSpec { name: if name == "-" { String::new() } else { name.to_string() }, local: build(&lo), peer: build(&pe), compressed: true, min_epoch: 0 })
 }
